@@ -5,6 +5,8 @@ descriptions into the evidence next to the numbers it measures.
 """
 
 DEFAULT_TIMEOUT = {"quick": 600, "thorough": 3600}
+# memory classes: expected peak RSS of the CBMC process of a harness (GB), used by the scheduler
+MEM_CLASS_GB = {"L": 1.5, "M": 4.0, "H": 10.0, "X": 22.0}
 
 ZSTUBS = ["stub: zeroize::optimization_barrier -> no-op", "stub: zeroize::volatile_set -> no-op"]
 
@@ -19,7 +21,7 @@ HARNESSES = []
 
 def H(name, file, props, tier, fs="fs_core", **kw):
     mod = file[:-3].replace("/", "::")
-    e = dict(name=name, file=file, path=mod + "::" + name, props=list(props), tier=tier, fs=fs)
+    e = dict(name=name, id=name + "@" + fs, file=file, path=mod + "::" + name, props=list(props), tier=tier, fs=fs)
     e.update(kw)
     HARNESSES.append(e)
 
@@ -50,6 +52,11 @@ def is_subject(fn):
 
 
 OUTSIDE = {}
+CLAIMS = {}
+NOT_APPLICABLE = {}
+_NOTE = ("Trusted: rustc MIR -> Kani goto translation, CBMC memory model, CaDiCaL; hook adapters (MANIFEST.hooks) contain no "
+         "property logic; stubs: zeroize::optimization_barrier / volatile_set -> no-op where secrets are dropped. Bounded: "
+         "sizes per harness are in the evidence; everything outside them is outside the claim.")
 
 # ------------------------------------------------------------------------------------------- C20
 OUTSIDE["C20"] = ("leaf counts that are not powers of two (never produced: total_leaf_count rounds up and is "
@@ -97,3 +104,300 @@ for ln in [0, 1, 2, 3, 4, 5, 6, 7, 8, 9, 11, 13, 15]:
 H("c20_leaf_index_bound", "c20_math.rs", ["C20"], "quick", unwind=6,
   what="LeafIndex::try_from / mls_decode accept exactly v <= 2^24-1 and preserve the value; node index = 2v",
   symbolic="v any u32", bounds="all u32")
+
+# ------------------------------------------------------------------------------------------- C12
+OUTSIDE["C12"] = ("buffers longer than the stated bound B per harness (<= 17 bytes); collections with more entries "
+                  "than fit in B; whole MlsMessage / GroupInfo / Welcome / snapshot values; ExtensionList and every "
+                  "type holding a BTreeMap/HashMap (map.rs); allocation *capacity* (only lengths are asserted)")
+
+_DA = ("decode-any: for every byte string of length <= B: decode returns; Ok(v) having consumed c bytes => reader left "
+       "is the input suffix, mls_encoded_len(v) == c and encode(v) == input[..c]")
+
+
+def C12(name, tier, what, symbolic, bounds, unwind=None, both=True, file="c12_codec.rs", **kw):
+    for fs in (["fs_core", "fs_prealloc"] if both else ["fs_core"]):
+        H(name, file, ["C12"], tier, fs=fs, what=what, symbolic=symbolic, bounds=bounds, unwind=unwind, **kw)
+
+
+C12("c12_varint_all_u32", "quick", "VarInt::try_from accepts exactly n < 2^30; encoded length 1/2/4 by range; bytes = "
+    "2-bit prefix + big-endian value; decode inverts", "n any u32", "all u32", 6)
+C12("c12_varint_from_usize", "quick", "VarInt::try_from(usize) accepts exactly n < 2^30", "n any usize", "all usize")
+C12("c12_decode_any_varint", "quick", _DA + "; shortest form only", "5 symbolic bytes, symbolic length", "B = 5", 7)
+for t, b in [("u8", 2), ("u16", 3), ("u32", 5), ("u64", 9), ("u128", 17), ("bool", 2), ("array4", 5),
+             ("option_u8", 3), ("option_u16", 4), ("option_option_u8", 4), ("tuple", 4)]:
+    C12("c12_decode_any_" + t, "quick", _DA, "%d symbolic bytes, symbolic length" % b, "B = %d" % b, b + 2,
+        role="c12_decode_any_" + t)
+C12("c12_roundtrip_ints", "quick", "encode/decode round trip, written length == mls_encoded_len, big-endian layout",
+    "every value of u8,u16,u32,u64,u128,bool,[u8;5],Option<u16>,(u8,u32)", "all values", 18)
+for b, tier in [(3, "quick"), (4, "thorough"), (5, "thorough"), (6, "thorough")]:
+    for t in ["byte_vec", "vec_u8", "vec_u16", "vec_option_u8", "vec_vec_u8", "string"]:
+        tt = tier
+        if b == 4 and t in ("byte_vec", "vec_u8"):
+            tt = "quick"
+        if b == 6 and t in ("vec_vec_u8", "vec_option_u8", "string"):
+            continue  # did not finish inside 600 s / 20 GB when tried at B = 6
+        C12("c12_decode_any_%s_%d" % (t, b), tt, _DA + "; decoded element count bounded by the bytes consumed",
+            "%d symbolic bytes, symbolic length" % b, "B = %d" % b, b + 3, timeout_s=2400 if tt == "thorough" else 600)
+C12("c12_decode_any_byte_vec_8", "thorough", _DA, "8 symbolic bytes, symbolic length", "B = 8", 11)
+C12("c12_decode_any_vec_array0_3", "quick", _DA + "; a vector of zero-sized items is rejected (zero-progress guard), no loop",
+    "3 symbolic bytes, symbolic length", "B = 3", 6)
+C12("c12_split_on_collection", "quick", "mls_decode_split_on_collection returns adjacent sub-slices of the input, the "
+    "first of exactly the announced (shortest-form) length", "8 symbolic bytes, symbolic length", "B = 8", 10)
+for n in [0, 1, 3, 63, 64]:
+    C12("c12_roundtrip_vec_u8_%d" % n, "quick" if n <= 3 else "thorough",
+        "Vec<u8> and byte_vec round trip, identical bytes from both codecs, 1- vs 2-byte header at the 63/64 boundary",
+        "%d symbolic content bytes" % n, "length %d (concrete)" % n, n + 4)
+C12("c12_roundtrip_vec_option_u16", "thorough", "Vec<Option<u16>> round trip with symbolic presence (symbolic byte length)",
+    "3 entries, presence and values symbolic", "3 entries", 12)
+C12("c12_roundtrip_vec_vec_u8", "quick", "Vec<Vec<u8>> round trip", "inner contents symbolic", "2 inner vectors (2, 0 bytes)", 10)
+
+CLAIMS["C20"] = dict(
+    text="Bounded model checking of the real tree-math functions against a relational (block-alignment) definition of the "
+         "RFC 9420 Appendix C tree: loop-free functions for EVERY u32 node index and every power-of-two size up to 2^25 "
+         "(an all-values verdict, stronger than the exhaustive-to-2^12 sweep the property asks for); direct_copath up to "
+         "2^6 (quick) / 2^24 (thorough) leaves; BFS up to 2^6; leaf_lca_level for all pairs of u32.",
+    note=_NOTE)
+CLAIMS["C12"] = dict(
+    text="Bounded model checking of mls-rs-codec and of derive-generated / hand-written codecs of mls-rs wire types in both "
+         "`preallocate` configurations: decode of EVERY byte string up to B bytes (B per harness, 2..17) returns without panic, "
+         "and an accepted value re-encodes to exactly the bytes consumed with mls_encoded_len equal to that count; round trips "
+         "for all values of fixed shapes; varints over all of u32.",
+    note=_NOTE)
+
+
+# --------------------------------------------------------------------------------- C12 (wire types)
+_W = "c12_wire.rs"
+for t, b, tier, mem in [
+    ("sender", 6, "quick", "L"), ("content_type", 2, "quick", "L"), ("wire_format", 3, "quick", "L"),
+    ("proposal_type", 3, "quick", "L"), ("extension_type", 3, "quick", "L"), ("cipher_suite", 3, "quick", "L"),
+    ("protocol_version", 3, "quick", "L"), ("credential_type", 3, "quick", "L"), ("reuse_guard", 5, "quick", "L"),
+    ("sender_data", 13, "quick", "L"), ("lifetime", 17, "quick", "L"),
+    ("membership_tag", 4, "quick", "L"), ("confirmation_tag", 4, "thorough", "L"), ("message_signature", 4, "thorough", "L"),
+    ("hpke_public_key", 4, "thorough", "L"), ("signature_public_key", 4, "thorough", "L"),
+    ("extension", 5, "quick", "L"), ("auth_data_application", 5, "quick", "M"),
+    ("auth_data_commit", 5, "thorough", "M"), ("credential", 6, "thorough", "M"), ("hpke_ciphertext", 6, "thorough", "M"),
+    ("sender_data_aad", 11, "thorough", "H"), ("message_key_data", 8, "thorough", "X"),
+    ("private_content_aad", 12, "thorough", "X"), ("signing_identity", 7, "thorough", "X"),
+]:
+    H("c12w_decode_any_" + t, _W, ["C12"], tier, fs="fs_core", mem=mem, unwind=b + 3,
+      what=_DA + " (mls-rs wire type)", symbolic="%d symbolic bytes, symbolic length" % b, bounds="B = %d" % b,
+      stubs=ZSTUBS, timeout_s=600 if tier == "quick" else 2400)
+H("c12w_roundtrip_sender", _W, ["C12"], "quick", what="Sender: every variant and index round-trips; sender_type byte then "
+  "u32 index (RFC 9420 §6)", symbolic="variant, index any u32", bounds="all values", unwind=8)
+H("c12w_roundtrip_sender_data", _W, ["C12", "C03"], "quick", what="SenderData round trip and layout: u32 leaf || u32 generation || 4 "
+  "guard bytes", symbolic="leaf <= 2^24-1, generation any u32, guard any 4 bytes", bounds="all values", unwind=14)
+
+# ------------------------------------------------------------------------------------------- C10
+OUTSIDE["C10"] = ("every rule that needs the tree, key packages, credentials, PSK stores or capabilities; the composed "
+                  "filter chain on multi-proposal bundles (did not terminate: probe P32); receivers with different caches; "
+                  "committer/receiver agreement end to end")
+_T = ("proposer_can_propose(sender, type, source) equals the table transcribed from RFC 9420 §12 / §17.4 "
+      "(+ the documented Local rule) for EVERY u16 proposal type and sender index")
+for who, src, unsat in [("member", "byvalue", []), ("member", "byref", []), ("member", "local", ["refused"]),
+                        ("external", "byvalue", ["allowed"]), ("external", "byref", []), ("external", "local", ["refused"]),
+                        ("newmemberproposal", "byvalue", ["allowed"]), ("newmemberproposal", "byref", []),
+                        ("newmembercommit", "byvalue", []), ("newmembercommit", "byref", ["allowed"]),
+                        ("newmembercommit", "local", ["refused"])]:
+    H("c10_table_%s_%s" % (who, src), "c10_rules.rs", ["C10"], "quick", what=_T,
+      symbolic="proposal type any u16, sender index any u32, proposal ref byte", bounds="sender kind %s, source %s (instance)" % (who, src),
+      unwind=4, expect_unsat=unsat)
+H("c10_table_newmemberproposal_local", "c10_rules.rs", ["C10"], "quick", what=_T, symbolic="proposal type any u16",
+  bounds="new_member_proposal sender, local source", unwind=4)
+H("c10_apply_strategy", "c10_rules.rs", ["C10"], "quick",
+  what="one rule set, two strategies: Send drops exactly the by-reference offenders, Receive rejects every offender with the "
+       "original error, valid proposals are kept under both", symbolic="direction, by_ref, validity (all 8 combinations)", bounds="exhaustive")
+
+# ------------------------------------------------------------------------------------- C02 / C08
+OUTSIDE["C02"] = ("who can follow the group after a removal (needs encap/decap: resolution wall, probes P14/P15); HPKE "
+                  "recipients of path secrets and joiner secrets; trees with more than 4 leaf slots; unmerged-leaf lists "
+                  "(empty in the generator; the removal kernel does not read them). The step 'all ancestors blank => the key is "
+                  "in no resolution' is an argument on paper, not a solver verdict.")
+OUTSIDE["C08"] = ("tree-hash cache vs from-scratch hash, parent-hash chains, TreeValidator, unmerged-leaf bookkeeping, tree index "
+                  "(resolution / shape-dependent encodings: probes P14, P30); trees with more than 4 leaf slots")
+_TS = "occupancy of all 7 slots, signature-key and identity bytes of every leaf (symbolic); position concrete per instance"
+for x in range(4):
+    H("c02_remove_leaf%d" % x, "c02_c08_tree.rs", ["C02"], "quick", unwind=9, mem="M",
+      what="blank_leaf_node + blank_direct_path (apply_remove's order): removed leaf and every ancestor blank, all other slots "
+           "bit-identical; removing a blank leaf is refused and changes nothing", symbolic=_TS, bounds="4 leaf slots, removed leaf %d" % x)
+for x in ["4", "5", "max"]:
+    H("c02_remove_outside_" + x, "c02_c08_tree.rs", ["C02"], "quick", unwind=9, mem="M",
+      what="removing a leaf index beyond the tree is refused, tree unchanged", symbolic=_TS, bounds="4 leaf slots, index %s (2^24-1 for max)" % x)
+H("c08_next_empty_leaf", "c02_c08_tree.rs", ["C08"], "quick", unwind=9, mem="M",
+  what="next_empty_leaf(start) = least blank leaf >= start, else first index past the end", symbolic=_TS + "; start in 0..=4",
+  bounds="4 leaf slots", assumes=["last slot non-blank (post-trim invariant)"])
+for x in range(3):
+    H("c08_insert_leaf%d" % x, "c02_c08_tree.rs", ["C08"], "quick", unwind=9, mem="M",
+      what="insert_leaf at a blank slot: slot holds the leaf, size unchanged, nothing else moves, trim removes nothing",
+      symbolic=_TS, bounds="4 leaf slots, slot %d" % x, assumes=["last slot non-blank", "target slot blank"])
+H("c08_insert_past_end", "c02_c08_tree.rs", ["C08"], "quick", unwind=9, mem="M",
+  what="full 2-leaf tree: next_empty_leaf points past the end; insert grows by exactly one blank parent + the leaf; leaf count 4",
+  symbolic="parent occupancy, key bytes", bounds="3 slots")
+H("c08_insert_into_empty", "c02_c08_tree.rs", ["C08"], "quick", unwind=5, what="first leaf of an empty tree lands in slot 0",
+  symbolic="none", bounds="empty tree")
+H("c08_trim", "c02_c08_tree.rs", ["C08"], "quick", unwind=9, mem="M",
+  what="trim: result is empty or ends in a non-blank slot, kept prefix untouched, only blanks cut", symbolic=_TS, bounds="7 slots, no assumption")
+
+# ------------------------------------------------------------------------------------------- C19
+OUTSIDE["C19"] = ("the Arc<Mutex<map>> wrapper and GroupStateStorage::write entry point (probe P18), the repository's "
+                  "pending-insert/update lookup chain, SQLite, end-to-end delivery of late messages; the (None, None) sender case "
+                  "is refused by the preceding signature check, not by this kernel")
+for k, r in [(1, 1), (2, 1), (3, 1), (1, 2), (2, 2), (3, 2), (4, 2), (2, 3), (3, 3), (4, 3), (5, 3)]:
+    H("c19_window_k%d_r%d" % (k, r), "c19_retention.rs", ["C19"], "quick", unwind=8, stubs=ZSTUBS,
+      what="in-memory epoch deque: after K consecutive inserts, an update and trim(R), epoch q is retrievable iff it is one of the "
+           "last min(K,R) inserted, and the record returned is q's (updated iff q was the updated id)",
+      symbolic="first id, updated id, queried id: any u64", bounds="K = %d inserts, retention R = %d" % (k, r),
+      expect_unsat=(["epoch just older than the window is gone"] if k <= r else []))
+H("c19_window_empty", "c19_retention.rs", ["C19"], "quick", unwind=4, stubs=ZSTUBS, what="empty store: nothing retrievable, update ignored",
+  symbolic="ids, retention any", bounds="0 records")
+H("c19_window_two_writes", "c19_retention.rs", ["C19"], "quick", unwind=8, stubs=ZSTUBS,
+  what="two successive writes (3 inserts, trim 2, 1 insert, trim 2): exactly the two newest ids remain retrievable",
+  symbolic="first id, queried id any u64", bounds="R = 2")
+H("c19_prior_epoch_sender_key", "c19_retention.rs", ["C19"], "quick", unwind=9, mem="M",
+  what="validate_sender_signature_key_from_prior_epoch: Ok => the old epoch's key at that index equals the key at that leaf now "
+       "(vacated / re-keyed leaf refused); the original sender still in place is never refused",
+  symbolic=_TS + "; old key list presence and bytes; sender index ANY u32", bounds="4 leaf slots")
+
+# ----------------------------------------------------------------------------- C13 / C18 / C05 / C04
+OUTSIDE["C13"] = ("the primitives themselves (uninterpreted: claim holds for every hash/KDF/MAC that is a function); secrets longer "
+                  "than Nh = 2 bytes; len > 65535 (`len as u16` truncation, unreachable with a real KDF); contexts beyond the "
+                  "listed sizes; secret-tree traversal below the root (BTreeMap traffic did not terminate: P24, P31); symbolic "
+                  "leaf / out-of-order generations")
+_UF = ["model: UF-recording CipherSuiteProvider (fresh symbolic output per hash/mac/extract/expand call, inputs logged)"]
+for nm, l, c, ln in [("c13_expand_l0_c0", 0, 0, "Nh"), ("c13_expand_l5_c0", 5, 0, "Nh"), ("c13_expand_l5_c2_len1", 5, 2, "1"),
+                     ("c13_expand_l55_c1_len3", 55, 1, "3"), ("c13_expand_l56_c1_len3", 56, 1, "3"),
+                     ("c13_expand_l3_c63", 3, 63, "Nh"), ("c13_expand_l3_c64", 3, 64, "Nh")]:
+    H(nm, "c13_derive.rs", ["C13"], "quick" if l < 50 and c < 50 else "thorough", unwind=l + c + 20, stubs=ZSTUBS + _UF,
+      what="ExpandWithLabel = KDF.Expand(secret, KDFLabel(u16 length, varint-prefixed 'MLS 1.0 '+label, varint-prefixed context), length); "
+           "63/64-byte varint boundary instances", symbolic="secret, label and context bytes", bounds="label %d bytes, context %d bytes, length %s" % (l, c, ln))
+H("c13_derive_secret", "c13_derive.rs", ["C13"], "quick", unwind=18, stubs=ZSTUBS + _UF,
+  what="DeriveSecret(s, label) = ExpandWithLabel(s, label, '', Nh)", symbolic="secret, 4 label bytes", bounds="Nh = 2")
+_RS = ("one ratchet step at generation g: nonce/key/next-secret = ExpandWithLabel(secret_g, 'nonce'|'key'|'secret', uint32 g, Nn|Nk|Nh), "
+       "returned key data carries g, ratchet advances to g+1 holding the 'secret' output")
+for g in ["g0", "g1", "g255", "g256", "gmax"]:
+    H("c13_ratchet_step_" + g, "c13_derive.rs", ["C13", "C05"], "quick" if g in ("g0", "g256") else "thorough", unwind=24, mem="M",
+      stubs=ZSTUBS + _UF, what=_RS, symbolic="ratchet secret bytes", bounds="generation %s (concrete)" % g)
+H("c13_ratchet_step_any_generation", "c13_derive.rs", ["C13", "C05"], "quick", unwind=24, mem="M", stubs=ZSTUBS + _UF,
+  what=_RS + " - for EVERY generation", symbolic="ratchet secret bytes, generation any u32 < 2^32-1", bounds="Nh = 2")
+for kt in ["application", "handshake"]:
+    H("c13_ratchet_init_" + kt, "c13_derive.rs", ["C13", "C05"], "quick", unwind=24, stubs=ZSTUBS + _UF,
+      what="a leaf's %s ratchet starts at generation 0 from ExpandWithLabel(leaf_secret, '%s', '', Nh): handshake and application "
+           "chains never share key material" % (kt, kt), symbolic="leaf secret bytes", bounds="Nh = 2")
+H("c13_welcome_key_nonce", "c13_derive.rs", ["C13"], "quick", unwind=30, mem="M", stubs=ZSTUBS + _UF,
+  what="welcome_secret = DeriveSecret(Extract(joiner, psk_secret), 'welcome'); welcome key/nonce = ExpandWithLabel(welcome_secret, 'key'|'nonce', '', Nk|Nn)",
+  symbolic="joiner secret, psk secret", bounds="Nh = 2")
+H("c13_path_secret_chain", "c13_derive.rs", ["C13"], "quick", unwind=24, stubs=ZSTUBS + _UF,
+  what="path_secret[n+1] = DeriveSecret(path_secret[n], 'path')", symbolic="starting path secret", bounds="3 steps")
+H("c13_path_secret_node_key", "c13_derive.rs", ["C13"], "quick", unwind=24, stubs=ZSTUBS + _UF,
+  what="node key pair = KEM.DeriveKeyPair(DeriveSecret(path_secret, 'node'))", symbolic="path secret", bounds="Nh = 2")
+for c in [0, 1, 2, 5]:
+    H("c13_sender_data_key_ct%d" % c, "c13_derive.rs", ["C13", "C03"], "quick" if c in (1, 5) else "thorough", unwind=24, stubs=ZSTUBS + _UF,
+      what="sender-data key/nonce = ExpandWithLabel(sender_data_secret, 'key'|'nonce', ciphertext[..min(Nh,len)], Nk|Nn): the sample binds "
+           "the sender data to the ciphertext", symbolic="secret, ciphertext bytes", bounds="ciphertext %d bytes" % c)
+H("c18_psk_chain_0", "c13_derive.rs", ["C13", "C18"], "quick", unwind=30, stubs=ZSTUBS + _UF,
+  what="empty PSK list yields psk_secret = 0^Nh with no KDF call", symbolic="none", bounds="n = 0")
+
+# ------------------------------------------------------------------------------------- C03 / C05 framing
+OUTSIDE["C03"] = ("unforgeability (cryptography); byte-level mutation sweeps over whole messages; seal -> tamper -> open end to end (P17); "
+                  "joiner-side validation of Welcome / GroupInfo / tree; update-path shape validation (P30, P33); membership-tag and "
+                  "signature verification pipelines; Client / ExternalClient entry points")
+OUTSIDE["C05"] = ("the shipped out_of_order ratchet (skipped keys kept in a map: P16, P19, P20): out-of-order delivery and 'each decrypted "
+                  "exactly once' for skipped generations; the window interior (gap 3..1024) beyond the unwinding bound; secret-tree "
+                  "consumption; ciphertext-level replay (P17); save/reload mid-stream; KDF collisions")
+OUTSIDE["C04"] = ("everything at Group level: signer swap in apply_update_path, pending_reinit, key consumed before the AEAD check in "
+                  "CiphertextProcessor::open, snapshot equality (not decidable here; suspicions listed in DESIGN §5)")
+for nm in ["c03_content_aad_g0_a0", "c03_content_aad_g1_a2", "c03_content_aad_g2_a1"]:
+    H(nm, "c03_c05_framing.rs", ["C03"], "quick", unwind=20, stubs=ZSTUBS,
+      what="PrivateContentAAD derived from a PrivateMessage = opaque group_id<V> || u64 epoch || content_type || opaque authenticated_data<V>: "
+           "every clear field is bound by the content AEAD", symbolic="group id, authenticated data, epoch, content type", bounds=nm[-5:])
+for nm in ["c03_sender_aad_g0", "c03_sender_aad_g2"]:
+    H(nm, "c03_c05_framing.rs", ["C03"], "quick", unwind=20, stubs=ZSTUBS,
+      what="SenderDataAAD = opaque group_id<V> || u64 epoch || content_type", symbolic="group id, epoch, content type", bounds=nm[-2:])
+H("c03_padding_tail0", "c03_c05_framing.rs", ["C03"], "quick", unwind=16, stubs=ZSTUBS, what="unpadded private content decodes to itself",
+  symbolic="1 data byte, 1 signature byte", bounds="tail 0",
+  expect_unsat=["non-zero padding rejected", "maximal zero padding accepted"])
+H("c03_padding_tail1", "c03_c05_framing.rs", ["C03"], "quick", unwind=16, stubs=ZSTUBS, mem="M",
+  what="PrivateMessageContent followed by a tail decodes iff the tail is all zero, to the same content", symbolic="content bytes, tail byte, tail length",
+  bounds="tail <= 1")
+H("c03_padding_tail4", "c03_c05_framing.rs", ["C03"], "thorough", unwind=16, stubs=ZSTUBS, mem="X",
+  what="same, tail of up to 4 symbolic bytes", symbolic="content bytes, 4 tail bytes, tail length", bounds="tail <= 4")
+H("c03_padded_size_all", "c03_c05_framing.rs", ["C03"], "quick",
+  what="padded_size(n) >= n for every mode (None: identity; StepFunction: multiple of 32, > n; Padme: <= n + n/8 + 1)", symbolic="n any value < 2^32",
+  bounds="all three modes")
+for n in [0, 3, 4, 12, 16]:
+    H("c05_reuse_guard_n%d" % n, "c03_c05_framing.rs", ["C05"], "quick", unwind=20,
+      what="ReuseGuard::apply XORs the 4 guard bytes into the first min(4,len) nonce bytes, rest and length unchanged",
+      symbolic="nonce and guard bytes", bounds="nonce length %d" % n)
+H("c05_reuse_guard_injective", "c03_c05_framing.rs", ["C05"], "quick", unwind=20,
+  what="two reuse guards give the same nonce iff they are equal (12-byte nonce)", symbolic="nonce, two guards", bounds="12-byte nonce")
+H("c05_ratchet_request_all_generations", "c05_ratchet_request.rs", ["C05", "C04"], "thorough", fs="fs_noooo", unwind=24, mem="H",
+  stubs=ZSTUBS + ["model: fresh-output CipherSuiteProvider (no log)"], timeout_s=3000,
+  what="get_message_key (build without out_of_order): past generation -> KeyMissing and ratchet unchanged; beyond current+1024 -> "
+       "InvalidFutureGeneration and unchanged; otherwise the key of exactly that generation, ratchet advanced past it, second request refused",
+  symbolic="ratchet generation and requested generation: any u32 (gap <= 2 or outside the window)", bounds="window interior gap 3..1024 outside",
+  assumes=["ratchet generation <= 2^32-1027 (no overflow of generation + 1024)", "gap to the requested generation is <= 2 or > 1024 or negative"])
+H("c05_ratchet_request_beyond_window_refused", "c05_ratchet_request.rs", ["C05", "C04"], "thorough", fs="fs_noooo", unwind=24, mem="M",
+  stubs=ZSTUBS, timeout_s=1800,
+  what="every request more than 1024 generations ahead is refused and leaves (secret, generation) unchanged",
+  symbolic="ratchet generation, requested generation any u32 beyond the window", bounds="all", assumes=["generation <= 2^32-2051"])
+
+# --------------------------------------------------------------------------------------- C16 / C11 / C03a
+OUTSIDE["C16"] = ("the observer tracking roster / tree / context over histories, proposals it issues, snapshot/restore, signature and "
+                  "proposal-rule checks (whole-program; Group-sized state)")
+OUTSIDE["C11"] = ("the pending-commit state machine: commit / apply_pending_commit / clear_pending_commit / apply_detached_commit / echo matching "
+                  "(every transition serialises a whole GroupState and touches maps). Observed by reading only: apply_detached_commit compares "
+                  "no epoch before installing the pending state.")
+_CM = ("check_metadata on an observer: message admitted <=> version and group id match the context AND (handshake: message epoch == current "
+       "epoch; application: only as ciphertext and epoch >= current.saturating_sub(jitter)); never panics")
+for pl in ["cipher_application", "cipher_proposal", "cipher_commit", "plain_application", "plain_proposal", "plain_commit"]:
+    for jit in ["jitter", "nojitter"]:
+        app = pl.endswith("application")
+        cipher = pl.startswith("cipher")
+        unsat = []
+        if jit == "nojitter":
+            unsat.append("jitter larger than the epoch")
+        if not (app and cipher):
+            unsat.append("ciphertext of a past epoch admitted")
+        if app and not cipher:
+            unsat.append("admitted")
+        if app and cipher and jit == "nojitter":
+            unsat.append("rejected on epoch / encryption grounds")
+        H("c16_%s_%s" % (pl, jit), "c16_external.rs", ["C16", "C11", "C03"] if not app else ["C16", "C03"], "quick", fs="fs_std", unwind=4,
+          stubs=ZSTUBS + ["stub: std::hash::RandomState::new -> constant keys (no HashMap is ever populated)"],
+          what=_CM, symbolic="current epoch, jitter, message epoch: any u64; versions any u16; group-id byte of context and message; sender index",
+          bounds="payload %s, %s (instance); 1-byte group ids" % (pl, "max_epoch_jitter = Some(symbolic)" if jit == "jitter" else "max_epoch_jitter = None (the member case)"),
+          expect_unsat=unsat, role="c16_check_metadata_" + pl)
+
+CLAIMS["C10"] = dict(text="Bounded model checking of the proposer rule table (every sender kind x source x u16 proposal type) against a table "
+                          "transcribed from RFC 9420, and of the two filter strategies. Only this clause of C10; agreement between committer and "
+                          "receivers on whole proposal sets is outside (see coverage.outside_bounds).", note=_NOTE)
+CLAIMS["C02"] = dict(text="Bounded model checking of the removal kernel (blank leaf + blank direct path) on every occupancy of a 4-leaf-slot tree, "
+                          "every removed position: the removed key's slot and all its ancestors are blank, nothing else changes. The recipient "
+                          "clause (HPKE only to copath resolutions) is outside.", note=_NOTE)
+CLAIMS["C08"] = dict(text="Bounded model checking of leftmost-blank placement, insertion and trimming on every occupancy of a 4-leaf-slot tree. "
+                          "Hash caches, parent hashes and the tree validator are outside.", note=_NOTE)
+CLAIMS["C19"] = dict(text="Bounded model checking of the in-memory provider's retention window for symbolic epoch ids (K <= 5 inserts, R <= 3) and of the "
+                          "prior-epoch sender-key check for every occupancy / key assignment of a 4-leaf-slot tree and ANY u32 sender index.", note=_NOTE)
+CLAIMS["C13"] = dict(text="Dataflow equality with the RFC 9420 formulas, decided by the solver with the primitives uninterpreted (fresh symbolic output per "
+                          "call): label encoding incl. varint boundaries, ratchet step for EVERY generation, ratchet initialisation, welcome key/nonce, "
+                          "path secrets, sender-data key, empty PSK chain. Holds for every hash/KDF/MAC that is a function.", note=_NOTE)
+CLAIMS["C05"] = dict(text="Reuse-guard XOR for all nonces/guards; per-generation key/nonce/next-secret derivations distinct and RFC-shaped for every generation; "
+                          "handshake vs application separation; (thorough) ratchet request logic for all u32 generation pairs in the build without "
+                          "out_of_order. The shipped out-of-order history is outside.", note=_NOTE)
+CLAIMS["C03"] = dict(text="Kernels only: admission gate (version / group id / epoch / encryption) for all inputs; AAD layouts bind every clear field; "
+                          "zero-padding check; padded sizes; sender-data sample. Not a claim about forgery resistance end to end.", note=_NOTE)
+CLAIMS["C16"] = dict(text="Bounded model checking of the observer's admission gate for EVERY (epoch, jitter, message epoch, version, group id byte, content "
+                          "type, wire format): no panic, exact epoch window. Found and fixed the jitter > epoch underflow. Tracking of public state over "
+                          "histories is outside.", note=_NOTE)
+CLAIMS["C11"] = dict(text="One clause: a handshake message (proposal or commit, public or private) is admitted only for the current epoch - decided for all "
+                          "epochs/versions/group ids. The pending-commit state machine is outside.", note=_NOTE)
+CLAIMS["C04"] = dict(text="One clause, one build: failed key lookups (past generation / beyond the window) leave the ratchet bit-identical - build without "
+                          "out_of_order, all u32 generation pairs (thorough tier only has the solver harness; quick tier runs the window-refusal harness).", note=_NOTE)
+
+
+NOT_APPLICABLE.update({
+ "C01": "Agreement of all members rests on TreeKEM encap/decap over copath resolutions; get_resolution_index / find_in_resolution on symbolic tree shapes exhausted 25 GB in 7 min (probe P14) and the composed encap->decap harness ran out of memory after 36 min even with concrete committer/receiver (P15). On concrete shapes the solver decides nothing a unit test does not. DESIGN.md §6.",
+ "C06": "The subject is a whole-member Snapshot round-tripped through the codec and SQLite: a symbolic Snapshot contains the proposal-cache and secret-tree maps (heap maps with symbolic keys do not terminate: P16, P19, P20), a concrete one leaves nothing to decide, SQLite is C behind FFI (unsupported by Kani). DESIGN.md §6.",
+ "C07": "Joiner state comes from TreeKemPrivate::update_secrets and Group::from_welcome_message: resolutions (P14), full tree validation (P30) and a Group-sized state; same wall as C01. DESIGN.md §6.",
+ "C09": "Private keys vs tree is decided by decap / update_secrets over resolutions (P14, P15, P33); same wall as C01. DESIGN.md §6.",
+ "C14": "OpenSSL and AWS-LC are foreign C libraries (Kani does not support foreign functions); RustCrypto primitives are loops over input and wide multiplications that bit-blasting does not finish; X.509 validation is ASN.1 parsing plus the same primitives. DESIGN.md §6.",
+})
